@@ -1090,3 +1090,68 @@ def emptiness_rule(res, prog, rule, fams):
                         fam, show(c)[:80], sorted(sup or []), sorted(api or [])), f.id,
                     sample={"rule": rule, "family": fam, "decision": show(c)[:100], "reads": sorted(sup or []), "is_empty_reads": sorted(api or [])})
     return n
+
+
+# ------------------------------------------------------------------------------------------------ seeds at full width
+def narrow_seed_sites(prog):
+    """every call of a hasher's `with_seed(seed: u64)` outside the hash module whose argument was widened from a narrower integer on
+    the way (`u64::from(self.hash_seed)` with a u32 field, `x as u64` from u32): the seed was *held* in fewer than 64 bits, so two
+    public seeds that differ above that width hash alike and the seed hash stamped on images is that of the truncated seed.
+    yields (caller fn, callee, narrow type, span); also counts the sites looked at through the returned list's second element"""
+    out = []
+    n = 0
+    for f in sorted(prog.fns.values(), key=lambda x: x.id):
+        if f.promoted or f.id.startswith("hash::"):
+            continue
+        for b, site in f.calls():
+            cal = site.get("callee") or ""
+            if not (cal.startswith("hash::") and cal.rsplit("::", 1)[-1] in ("with_seed", "compute_seed_hash")) or not site["args"]:
+                continue
+            n += 1
+            op = site["args"][0]
+            seen = set()
+            for _ in range(12):
+                pl = ir.op_place(op)
+                if pl is None or not isinstance(pl, int) or pl in seen:
+                    break
+                seen.add(pl)
+                d = f.single_def(pl)
+                if d is None or d[2] == "arg":
+                    break
+                blk = f.blocks[d[0]]
+                if d[1] == "t":
+                    cs = blk.term[1]
+                    cn = (cs.get("callee") or "").rsplit("::", 1)[-1]
+                    if cn in ("from", "into") and cs["args"]:
+                        src_ty = ir.pl_ty(f, ir.op_place(cs["args"][0])) if ir.op_place(cs["args"][0]) is not None else None
+                        if src_ty in ir.INT_RANGES and src_ty not in ("u64", "i64", "u128", "i128", "usize", "isize"):
+                            out.append((f, cal, src_ty, site.get("span")))
+                            break
+                        op = cs["args"][0]
+                        continue
+                    break
+                rv = blk.stmts[d[1]][2]
+                if rv[0] == "use":
+                    op = rv[1]
+                    continue
+                if rv[0] == "cast" and rv[1] == "IntToInt":
+                    if rv[3] in ir.INT_RANGES and rv[3] not in ("u64", "i64", "u128", "i128", "usize", "isize"):
+                        out.append((f, cal, rv[3], site.get("span")))
+                        break
+                    op = rv[2]
+                    continue
+                break
+    return out, n
+
+
+def seed_width_rule(res, prog, rule, module_prefixes=None):
+    sites, n = narrow_seed_sites(prog)
+    res.obligations += 1
+    bad = [x for x in sites if module_prefixes is None or x[0].id.startswith(tuple(module_prefixes))]
+    for (f, cal, ty, span) in bad:
+        res.violate(rule, "%s|%s|%s" % (rule, f.id, cal.rsplit("::", 2)[-2] if cal.count("::") >= 2 else cal),
+                    "%s hands %s a seed that was held as %s: public seeds that differ above bit %d hash alike (and stamp the same seed "
+                    "hash)" % (f.id, cal, ty, int(ty[1:]) if ty[1:].isdigit() else 0), f.id, span)
+    if not bad:
+        res.discharged += 1
+    res.rule(rule, n, 4, "hasher seeding sites outside the hash module (seed carried at 64 bits)")
